@@ -1222,7 +1222,7 @@ func (a *AreaGeometryReferences) Marshal(paths TypeAndNamespace, buffer []byte) 
 
 func (a *AreaGeometryReferences) Unmarshal(paths TypeAndNamespace, buffer []byte) int {
 	_, l, i := UnmarshalGeometryEncodingAndLength(buffer)
-	return l + a.UnmarshalWithoutLength(l, paths, buffer[i:])
+	return i + a.UnmarshalWithoutLength(l, paths, buffer[i:])
 }
 
 func (a *AreaGeometryReferences) UnmarshalWithoutLength(l int, paths TypeAndNamespace, buffer []byte) int {
@@ -1355,7 +1355,7 @@ func (a *AreaGeometryLatLngs) Marshal(paths TypeAndNamespace, buffer []byte) int
 
 func (a *AreaGeometryLatLngs) Unmarshal(paths TypeAndNamespace, buffer []byte) int {
 	_, l, i := UnmarshalGeometryEncodingAndLength(buffer)
-	return l + a.UnmarshalWithoutLength(l, paths, buffer[i:])
+	return i + a.UnmarshalWithoutLength(l, paths, buffer[i:])
 }
 
 func (a *AreaGeometryLatLngs) UnmarshalWithoutLength(l int, paths TypeAndNamespace, buffer []byte) int {
